@@ -147,11 +147,21 @@ def specChecks : Checks :=
 
 /-! ## the reference compile and the oracle -/
 
+/-- protoc's naming with the ONE naming divergence the project documents as intentional: the
+    comment of `processProto3OptionalFields` ("NB: protoc only considers names of other fields
+    and oneofs when computing the synthetic oneof name. But that feels like a bug …") — synthetic
+    oneofs avoid every name of the message, as the Go code does. JSON and map-entry names are
+    protoc's loops. -/
+def docNaming : Naming := { protocNaming with synthNames := goNaming.synthNames }
+
 /-- the reference semantics of a workspace: protoc's rules (declarative), protoc's naming, plus
-    the divergences the project documents as intentional (they are part of the shared pipeline:
-    invalid reserved names are errors, explicit `allow_alias = false` is accepted, custom
-    JSON-name conflicts are errors in proto2 too) -/
-def reference (ws : Workspace) : Compiled := compileWorkspace specChecks protocNaming ws
+    the divergences the project documents as intentional: invalid reserved names are errors,
+    explicit `allow_alias = false` is accepted, custom JSON-name conflicts are errors in proto2 too
+    (these are part of the shared pipeline), and the synthetic-oneof name set (`docNaming`) -/
+def reference (ws : Workspace) : Compiled := compileWorkspace specChecks docNaming ws
+
+/-- protoc WITHOUT the synthetic-oneof exemption (documentation of that divergence only) -/
+def referencePureProtoc (ws : Workspace) : Compiled := compileWorkspace specChecks protocNaming ws
 
 /-- constructs whose protoc behaviour is not anchored in a repository artefact: the oracle makes
     no claim about workspaces containing them.
@@ -184,15 +194,14 @@ def linkVerdict (ws : Workspace) (ans : String) : String :=
   if !wellFormed ws then "skip"
   else
     let ref := reference ws
-    let toks := PCV.Wire.words ans
+    -- the part after ` ~ ` is the harness's note (error text, documented-divergence marker)
+    let toks := PCV.Wire.words ((ans.splitOn " ~ ").headD "")
+    let note := PCV.Wire.words (((ans.splitOn " ~ ").drop 1).headD "")
     match toks with
     | "ok" :: proj =>
       if !ref.errs.isEmpty then
         if unanchored ref then "skip"
-        else
-          -- does the rejection hinge on protoc's naming of synthetic oneofs?
-          let cause := if (compileWorkspace specChecks goNaming ws).errs.isEmpty then " cause=synthetic-oneof-name" else ""
-          "fails accepts-what-protoc-rejects " ++ " ".intercalate ref.errs.eraseDups ++ cause
+        else "fails accepts-what-protoc-rejects " ++ " ".intercalate ref.errs.eraseDups
       else
         match firstDiff proj (PCV.Wire.words (projAll ref.files)) 0 with
         | none => "holds"
@@ -202,7 +211,7 @@ def linkVerdict (ws : Workspace) (ans : String) : String :=
     | "err" :: _ =>
       if ref.errs.isEmpty then
         if unanchored ref then "skip"
-        else "fails rejects-what-protoc-accepts " ++ " ".intercalate (toks.drop 2 |>.take 1)
+        else "fails rejects-what-protoc-accepts " ++ " ".intercalate (note.take 1)
       else "holds"
     | _ => "fails bad-answer"
 
